@@ -122,9 +122,13 @@ class KeyMap:
         present_keys, missing_keys = data_util.separate_values(df_new.columns.values.tolist(), self.key_cols)
         if missing_keys:
             raise HedFileError("MissingKeys", f"File must have key columns {str(self.key_cols)}", "")
+        original_keys = df_new[present_keys].copy()
         self.remove_quotes(df_new, columns=present_keys)
         df_new[self.target_cols] = 'n/a'
         missing_indices = self._remap(df_new)
+        # The quote-free spelling is only for matching: the key columns are returned as they came in.
+        restore = [col for col in present_keys if col not in self.target_cols]
+        df_new[restore] = original_keys[restore]
         return df_new, missing_indices
 
     def _remap(self, df):
